@@ -783,12 +783,14 @@ class Interp(BuiltinsMixin):
         # implicit exceptions raised by something in the body
         if _may_raise_implicitly(st.body):
             for h in st.handlers:
-                q = entry.fork()
-                tn = ast.unparse(h.type) if h.type is not None else 'BaseException'
-                q.pc.append((App('implicit_exc', Const(tn),
-                                 Const(getattr(st, 'lineno', 0))), True))
-                exc = q.fresh('exc', ('exc', tn))
-                out.extend(self.run_handler(h, exc, fr, q))
+                for (tn, cval) in self.handler_members(h, fr, entry):
+                    q = entry.fork()
+                    q.pc.append((App('implicit_exc', Const(tn),
+                                     Const(getattr(st, 'lineno', 0))), True))
+                    exc = q.fresh('exc', ('exc', tn))
+                    if cval is not None:
+                        exc.meta = ('exc-class', cval)
+                    out.extend(self.run_handler(h, exc, fr, q))
         if st.finalbody:
             res = []
             for (p, sig) in out:
@@ -796,6 +798,31 @@ class Interp(BuiltinsMixin):
                     res.append((q, s2 if s2 is not None else sig))
             out = res
         return out
+
+    def handler_members(self, h, fr, path):
+        """[(text, class value)] of the exception classes a handler names:
+        `except (A, B)` and `except NAMES` (a tuple bound elsewhere) stand
+        for one alternative per member"""
+        if h.type is None:
+            return [('BaseException', None)]
+        if isinstance(h.type, ast.Tuple):
+            out = []
+            for e in h.type.elts:
+                res = self.eval(e, fr, path.fork())
+                out.append((ast.unparse(e),
+                            res[0][1] if len(res) == 1 else None))
+            return out
+        res = self.eval(h.type, fr, path.fork())
+        v = res[0][1] if len(res) == 1 else None
+        if isinstance(v, Obj):
+            items = self.concrete_iter(v, path)
+            if items is not None:
+                v = Tup(tuple(items))
+        if isinstance(v, Tup) and v.items and all(
+                isinstance(x, (CRef, ERef)) for x in v.items):
+            return [((x.name if isinstance(x, ERef) else x.ci.name), x)
+                    for x in v.items]
+        return [(ast.unparse(h.type), v)]
 
     def exc_class(self, exc):
         if isinstance(exc, New):
@@ -965,6 +992,16 @@ class Interp(BuiltinsMixin):
         h.parts.append(Part('elem', value,
                             gens=[(l.var, l.iterable) for l in gens],
                             conds=conds))
+
+
+def is_private_helper(fi, entry):
+    """an underscore-named (non-dunder) function or method defined next to
+    `entry` (same module): the product of an extract-helper refactoring,
+    seen through by rules that otherwise inline only their entry"""
+    n = fi.name
+    return n.startswith('_') and not (n.startswith('__') and
+                                      n.endswith('__')) and \
+        fi.module is entry.module and fi is not entry
 
 
 class LoopFrame(object):
